@@ -122,9 +122,9 @@ func checkC20(c *C20Case) *Violation {
 // ---- injection ----
 
 type injPoint struct {
-	b                 *Block
-	depth             int
-	inLoop, inBrk     bool
+	b                  *Block
+	depth              int
+	inLoop, inBrk      bool
 	inPS, inCase, inMS bool
 }
 
